@@ -59,6 +59,7 @@ const (
 	c36FViewOrder = "C36-view-order"
 	c36FTrigBlock = "C36-trigger-block-no-delimiter"
 	c36FEnumDef   = "C36-enum-set-default"
+	c36FViewCmt   = "C36-view-trailing-comment"
 )
 
 func c36IsOpen(id string) bool {
@@ -87,6 +88,7 @@ func c36NewGate() *c36Gate {
 		noViewFwdDep:   c36IsOpen(c36FViewOrder),
 		noBlockTrigger: c36IsOpen(c36FTrigBlock),
 		noEnumDefault:  c36IsOpen(c36FEnumDef),
+		noViewComment:  c36IsOpen(c36FViewCmt),
 	}
 }
 
@@ -418,7 +420,7 @@ func TestVerif_C36(t *testing.T) {
 	defer os.RemoveAll(e.root)
 	gate := c36NewGate()
 	var open []string
-	for _, id := range []string{c36FBit, c36FGeo, c36FYear, c36FViewOrder, c36FTrigBlock, c36FEnumDef} {
+	for _, id := range []string{c36FBit, c36FGeo, c36FYear, c36FViewOrder, c36FTrigBlock, c36FEnumDef, c36FViewCmt} {
 		if c36IsOpen(id) {
 			open = append(open, id)
 		}
@@ -452,6 +454,10 @@ func TestVerif_C36(t *testing.T) {
 			rt.Skip("build rejected")
 		}
 		rec.Case(desc, nontrivial, cl...)
+		if viol != "" && os.Getenv("C36_SURVEY") != "" {
+			fmt.Printf("SURVEY-VIOLATION dump[%s]: %s\n--- build script ---\n%s\n--- end ---\n", v, viol, c36Clip(build))
+			return
+		}
 		if viol != "" {
 			rt.Fatalf("C36 violated: dump[%s] and re-import do not reproduce the database.\n%s\n--- build script ---\n%s", v, viol, build)
 		}
